@@ -257,3 +257,155 @@ func namedTypeName(t types.Type) string {
 	}
 	return t.String()
 }
+
+// normExpr prints an expression with every local variable (parameters,
+// receivers and results included) replaced by its type in ‹›, so that keys
+// built from it do not depend on how locals are named.
+func normExpr(info *types.Info, e ast.Expr) string {
+	var b strings.Builder
+	writeNorm(&b, info, e)
+	return b.String()
+}
+
+func shortType(t types.Type) string {
+	return types.TypeString(t, func(p *types.Package) string { return p.Name() })
+}
+
+func writeNorm(b *strings.Builder, info *types.Info, e ast.Expr) {
+	switch e := e.(type) {
+	case nil:
+	case *ast.Ident:
+		obj := info.Uses[e]
+		if obj == nil {
+			obj = info.Defs[e]
+		}
+		if v, ok := obj.(*types.Var); ok && !v.IsField() && v.Pkg() != nil && v.Parent() != v.Pkg().Scope() {
+			b.WriteString("‹" + shortType(v.Type()) + "›")
+			return
+		}
+		b.WriteString(e.Name)
+	case *ast.ParenExpr:
+		b.WriteByte('(')
+		writeNorm(b, info, e.X)
+		b.WriteByte(')')
+	case *ast.SelectorExpr:
+		writeNorm(b, info, e.X)
+		b.WriteByte('.')
+		b.WriteString(e.Sel.Name)
+	case *ast.IndexExpr:
+		writeNorm(b, info, e.X)
+		b.WriteByte('[')
+		writeNorm(b, info, e.Index)
+		b.WriteByte(']')
+	case *ast.SliceExpr:
+		writeNorm(b, info, e.X)
+		b.WriteByte('[')
+		writeNorm(b, info, e.Low)
+		b.WriteByte(':')
+		writeNorm(b, info, e.High)
+		if e.Max != nil {
+			b.WriteByte(':')
+			writeNorm(b, info, e.Max)
+		}
+		b.WriteByte(']')
+	case *ast.StarExpr:
+		b.WriteByte('*')
+		writeNorm(b, info, e.X)
+	case *ast.UnaryExpr:
+		b.WriteString(e.Op.String())
+		writeNorm(b, info, e.X)
+	case *ast.BinaryExpr:
+		writeNorm(b, info, e.X)
+		b.WriteString(" " + e.Op.String() + " ")
+		writeNorm(b, info, e.Y)
+	case *ast.CallExpr:
+		writeNorm(b, info, e.Fun)
+		b.WriteByte('(')
+		for i, a := range e.Args {
+			if i > 0 {
+				b.WriteString(", ")
+			}
+			writeNorm(b, info, a)
+		}
+		b.WriteByte(')')
+	case *ast.TypeAssertExpr:
+		writeNorm(b, info, e.X)
+		b.WriteString(".(")
+		if e.Type == nil {
+			b.WriteString("type")
+		} else {
+			b.WriteString(types.ExprString(e.Type))
+		}
+		b.WriteByte(')')
+	default:
+		b.WriteString(types.ExprString(e))
+	}
+}
+
+// isLenFieldEq reports whether cond is `len(X.field) == k` for the named
+// struct field (whatever X is called).
+func isLenFieldEq(info *types.Info, cond ast.Expr, pkg, typ, field string, k int64) bool {
+	be, ok := ast.Unparen(cond).(*ast.BinaryExpr)
+	if !ok || be.Op != token.EQL {
+		return false
+	}
+	if v, ok := constInt(info, be.Y); !ok || v != k {
+		return false
+	}
+	call, ok := ast.Unparen(be.X).(*ast.CallExpr)
+	if !ok || !isBuiltinCall(info, call, "len") || len(call.Args) != 1 {
+		return false
+	}
+	return fieldSel(info, call.Args[0], pkg, typ, field)
+}
+
+// okVarOfAssert reports whether cond is the boolean variable bound by a
+// comma-ok type assertion to the named type (v, ok := x.(T); ok).
+func okVarOfAssert(p *core.Program, f *core.Func, cond ast.Expr, typeName string) bool {
+	id, ok := ast.Unparen(cond).(*ast.Ident)
+	if !ok {
+		return false
+	}
+	info := f.Info()
+	obj := info.Uses[id]
+	if obj == nil {
+		return false
+	}
+	found := false
+	ast.Inspect(f.Root().Body, func(n ast.Node) bool {
+		as, isAs := n.(*ast.AssignStmt)
+		if !isAs || len(as.Lhs) != 2 || len(as.Rhs) != 1 {
+			return true
+		}
+		lid, isID := as.Lhs[1].(*ast.Ident)
+		if !isID || (info.Defs[lid] != obj && info.Uses[lid] != obj) {
+			return true
+		}
+		if ta, isTA := ast.Unparen(as.Rhs[0]).(*ast.TypeAssertExpr); isTA && ta.Type != nil && namedTypeName(info.Types[ta.Type].Type) == typeName {
+			found = true
+		}
+		return true
+	})
+	return found
+}
+
+// callsFunc reports whether e contains a static call of g.
+func (c *Ctx) callsFunc(info *types.Info, e ast.Node, g *core.Func) bool {
+	if g == nil || e == nil {
+		return false
+	}
+	found := false
+	ast.Inspect(e, func(n ast.Node) bool {
+		if call, ok := n.(*ast.CallExpr); ok {
+			if fo := core.StaticCallee(info, call); fo != nil && c.P.FuncOf(fo) == g {
+				found = true
+			}
+		}
+		return true
+	})
+	return found
+}
+
+func isErrorType(t types.Type) bool {
+	return t != nil && types.Identical(t, types.Universe.Lookup("error").Type())
+}
